@@ -22,39 +22,47 @@ def groupOf (tok : String) : Option (List DtOp) :=
   | some o => some [.api o]
   | none =>
     match tok.splitOn ":" with
-    | ["i", n, k, e, r, x] =>
+    | ["i", n, k, e, r, x, fo, rc] =>
       match n.toNat?, k.toNat? with
-      | some n, some k => some (integratePlan n k (b01 e) (b01 r) (b01 x))
+      | some n, some k => some (integratePlan n k (b01 e) (b01 r) (b01 x) (b01 fo) (b01 rc))
       | _, _ => none
     | _ => none
 
 /-- run one group through a flag machine: prims (as strings) with the dt markers in between -/
-def runGroup {F : Type} (api : F → Op Unit → Except String (List String × F)) :
+def runGroup {F : Type} (api apiForce : F → Op Unit → Except String (List String × F)) :
     F → List DtOp → List String → Except String (List String × F)
   | f, [], acc => .ok (acc.reverse, f)
+  | f, .forceSync :: r, acc =>
+    match apiForce f .synchronize with
+    | .error e => .error e
+    | .ok (ps, f') => runGroup api apiForce f' r (ps.reverse ++ acc)
   | f, .api o :: r, acc =>
     match api f o with
     | .error e => .error e
     | .ok (ps, f') =>
       let tail := match o with | .step => ["stepEnd"] | _ => []
-      runGroup api f' r ((ps ++ tail).reverse ++ acc)
-  | f, .begin :: r, acc => runGroup api f r ("intBegin" :: acc)
-  | f, .flipDt :: r, acc => runGroup api f r ("flipDt" :: acc)
-  | f, .setDtLast :: r, acc => runGroup api f r ("setDtLast" :: acc)
-  | f, .restoreDt :: r, acc => runGroup api f r ("restoreDt" :: acc)
+      runGroup api apiForce f' r ((ps ++ tail).reverse ++ acc)
+  | f, .begin :: r, acc => runGroup api apiForce f r ("intBegin" :: acc)
+  | f, .flipDt :: r, acc => runGroup api apiForce f r ("flipDt" :: acc)
+  | f, .setDtLast :: r, acc => runGroup api apiForce f r ("setDtLast" :: acc)
+  | f, .restoreDt :: r, acc => runGroup api apiForce f r ("restoreDt" :: acc)
 
-def runGroups {F : Type} (api : F → Op Unit → Except String (List String × F)) (fs : F → String) :
+def runGroups {F : Type} (api apiForce : F → Op Unit → Except String (List String × F)) (fs : F → String) :
     F → List (List DtOp) → List String → String
   | _, [], acc => ";".intercalate acc.reverse
   | f, g :: gs, acc =>
-    match runGroup api f g [] with
+    match runGroup api apiForce f g [] with
     | .error e => ";".intercalate (("error " ++ e) :: acc).reverse
-    | .ok (ps, f') => runGroups api fs f' gs ((",".intercalate ps ++ "@" ++ fs f') :: acc)
+    | .ok (ps, f') => runGroups api apiForce fs f' gs ((",".intercalate ps ++ "@" ++ fs f') :: acc)
 
 def whApi (c : Config) (f : Flags) (o : Op Unit) : Except String (List String × Flags) :=
   match apiOps c f o with
   | .error e => .error e
   | .ok (ps, f') => .ok (ps.map Prim.toString, f')
+
+def varApi (c : Config) (f : Flags) (o : Op Unit) : Except String (List String × Flags) :=
+  let (ps, f') := vOpOps c f o
+  .ok (ps.map Prim.toString, f')
 
 def sabaApi (c : SabaConfig) (f : Flags) (o : Op Unit) : Except String (List String × Flags) :=
   match sabaApiOps c f o with
@@ -96,16 +104,21 @@ def step (toks : List String) : String :=
   | "W" :: co :: ke :: cr :: c2 :: sa :: kp :: fx :: isy :: rc :: al :: ops =>
     match coordOf co, ke.toNat?, cr.toNat?, ops.mapM groupOf with
     | some co, some ke, some cr, some ops =>
-      runGroups (whApi ⟨co, ke, cr, b01 c2, b01 sa, b01 kp, b01 fx⟩) flagsStr ⟨b01 isy, b01 rc, b01 al⟩ ops []
+      runGroups (whApi ⟨co, ke, cr, b01 c2, b01 sa, b01 kp, b01 fx⟩) (whApi ⟨co, ke, cr, b01 c2, b01 sa, false, b01 fx⟩) flagsStr ⟨b01 isy, b01 rc, b01 al⟩ ops []
     | _, _, _, _ => "bad-op"
   | "S" :: ty :: sa :: kp :: ci :: isy :: rc :: al :: ops =>
     match ty.toNat?, ops.mapM groupOf with
-    | some ty, some ops => runGroups (sabaApi ⟨ty, b01 sa, b01 kp, b01 ci⟩) flagsStr ⟨b01 isy, b01 rc, b01 al⟩ ops []
+    | some ty, some ops => runGroups (sabaApi ⟨ty, b01 sa, b01 kp, b01 ci⟩) (sabaApi ⟨ty, b01 sa, false, b01 ci⟩) flagsStr ⟨b01 isy, b01 rc, b01 al⟩ ops []
     | _, _ => "bad-op"
   | ["FOOT"] => footStr
+  | "V" :: sa :: kp :: isy :: rc :: al :: ops =>
+    match ops.mapM groupOf with
+    | some ops => runGroups (varApi ⟨.jacobi, 0, 0, false, b01 sa, b01 kp, false⟩)
+        (varApi ⟨.jacobi, 0, 0, false, b01 sa, false, false⟩) flagsStr ⟨b01 isy, b01 rc, b01 al⟩ ops []
+    | none => "bad-op"
   | "M" :: sa :: isy :: rc :: rr :: ad :: atm :: ops =>
     match ops.mapM groupOf with
-    | some ops => runGroups (mercApi (b01 sa)) mflagsStr ⟨b01 isy, b01 rc, b01 rr, b01 ad, b01 atm⟩ ops []
+    | some ops => runGroups (mercApi (b01 sa)) (mercApi (b01 sa)) mflagsStr ⟨b01 isy, b01 rc, b01 rr, b01 ad, b01 atm⟩ ops []
     | none => "bad-op"
   | _ => "bad-op"
 
